@@ -100,6 +100,25 @@ def treeS (fs : FS) : Sexp :=
   let sorted := (items.toArray.qsort (fun a b => a.1 < b.1)).toList
   .list (sorted.map fun (p, n) => .list [.atom p, nodeS n])
 
+def logEntry? : Sexp → Option LogEntry
+  | .list [.atom c, .atom m, .atom t] => some { category := c, message := m, time := t }
+  | _ => none
+
+def logEntryS (e : LogEntry) : Sexp := .list [.atom e.category, .atom e.message, .atom e.time]
+
+def jval? : Sexp → Option JVal
+  | .list [.atom "entry", e] => (logEntry? e).map JVal.entry
+  | .list [.atom "str", .atom s] => some (JVal.str s)
+  | _ => none
+
+def jvalS : JVal → Sexp
+  | .entry e => .list [.atom "entry", logEntryS e]
+  | .str s => .list [.atom "str", .atom s]
+
+def pair? : Sexp → Option (String × JVal)
+  | .list [.atom k, v] => (jval? v).map fun v => (k, v)
+  | _ => none
+
 structure DState where
   fs : FS := []
   stack : List FS := []
@@ -138,6 +157,16 @@ def handle (st : DState) (req : Sexp) : DState × Sexp :=
         ({ st with fs := excFault st.fs c k n }, .list [.atom "ok", Sexp.ofNat ops.length, .list ((c.cleanup st.fs k).map opS)])
       else (st, .list [.atom "err", .atom "fault-point-out-of-range", Sexp.ofNat ops.length])
     | _, _, _ => (st, bad)
+  | .list [.atom "log-encode", .list es] =>
+    match es.mapM logEntry? with
+    | some l => (st, .list ((encodeLog l).map fun p => .list [.atom p.1, jvalS p.2]))
+    | none => (st, bad)
+  | .list [.atom "log-decode", .list ps] =>
+    match ps.mapM pair? with
+    | some ps => (st, match decodeLog ps with
+      | some l => .list [.atom "ok", .list (l.map logEntryS)]
+      | none => .list [.atom "none"])
+    | none => (st, bad)
   | .list [.atom "readlog", .atom t] =>
     (st, match readLog t.toList with
       | .ok ms => outS (.log ms)
